@@ -336,6 +336,43 @@ theorem package_beq_hash (a b : Pkg) (h : a.beq b = true) : pkgHash a = pkgHash 
   simp only [Pkg.beq, Bool.and_eq_true] at h
   simp [pkgHash, specHash_eq h.1, (version_beq_hash _ _).1 h.2]
 
+/-! ### derived objects: the hash has no history
+
+`clone`, `with_features`, `without_features` (and through `clone`: `with_constraint`, the dependency-group methods of
+`Package`) return an object whose hash input is computed from the derived attribute values only.  In the model this is
+by construction (no memo); the theorems state what the harness compares on the real code: a derived specification
+IS the freshly constructed one, so it equals and hashes like every independent spelling of the derived value. -/
+
+/-- deriving another feature set is the same as constructing the specification with that feature set -/
+theorem derived_is_freshly_constructed (name : String) (st su sr srr sd : Option String) (fs0 fs : List String)
+    (s : Dep.Spec) (h : Dep.Spec.make name st su sr srr sd fs0 = .ok s) :
+    Dep.Spec.make name st su sr srr sd fs = .ok (specWithFeatures s fs) ∧
+      Dep.Spec.make name st su sr srr sd [] = .ok (specWithoutFeatures s) ∧ specClone s = s := by
+  simp only [Dep.Spec.make, bind, Except.bind, pure, Except.pure] at h ⊢
+  cases hu : Dep.normalizeSourceUrl st su with
+  | error e => simp [hu] at h
+  | ok u =>
+    simp only [hu, Except.ok.injEq] at h ⊢
+    subst h
+    exact ⟨rfl, rfl, rfl⟩
+
+/-- the hash input is a function of `complete_name`, `source_type`, `source_url`, `source_subdirectory` — of the
+current values, whatever object they were copied from -/
+theorem specification_hash_no_history (a b : Dep.Spec) (h1 : a.completeName = b.completeName)
+    (h2 : a.sourceType = b.sourceType) (h3 : a.sourceUrl = b.sourceUrl)
+    (h4 : a.sourceSubdirectory = b.sourceSubdirectory) : specHash a = specHash b := by
+  simp [specHash, h1, h2, h3, h4]
+
+/-- a derived specification hashes like every specification it equals (an independently parsed spelling, the
+re-parse of its own text, …) -/
+theorem derived_specification_beq_hash (s t : Dep.Spec) (fs : List String)
+    (h : (specWithFeatures s fs).beq t = true) : specHash (specWithFeatures s fs) = specHash t := specHash_eq h
+
+example : ∃ s, Dep.Spec.make "Foo_Bar" none none none none none ["Extra_A"] = .ok s ∧
+    (specWithoutFeatures s).beq { s with prettyName := "foo.bar", features := [] } = true ∧
+    (specWithoutFeatures s).completeName = "foo-bar" ∧ s.completeName = "foo-bar[extra-a]" :=
+  ⟨_, rfl, by decide, by decide +kernel, by decide +kernel⟩
+
 def gitSpec (ref : String) (resolved : Option String) : Dep.Spec :=
   { prettyName := "foo", name := "foo", sourceType := some "git", sourceUrl := some "https://github.com/a/b.git",
     sourceReference := some ref, sourceResolvedReference := resolved, sourceSubdirectory := none, features := [] }
